@@ -161,8 +161,16 @@ def case_post(B, cfg):
             B.eq('d(value - reference)/d x%d = 0  [%s]' % (k, full[k]),
                  B.diff(d, x[k]), 0)
     else:
-        B.eq('value - reference = parameter-independent constant', d,
-             -n_s * n_out * np.log(2 * np.pi) / 2, tol=1e-6)
+        # float replay: value - reference must be the documented constant;
+        # recorded under the labels of the symbolic run as well, so that a
+        # counter-example of "d(value - reference)/dx_k = 0" is confirmed by
+        # the value identity failing at that point
+        const = -n_s * n_out * np.log(2 * np.pi) / 2
+        B.eq('value - reference = parameter-independent constant', d, const,
+             tol=1e-6)
+        for k in range(n):
+            B.eq('d(value - reference)/d x%d = 0  [%s]' % (k, full[k]),
+                 d, const, tol=1e-6)
     # gradient
     try:
         score, sens = post.evaluateS1(xa)
